@@ -24,6 +24,9 @@ def scenarios(tier):
     pre = [["ifchange", ["x"]], ["edit", "s", "1"]]
     L.append((SC.scn("db-2-builds", w["two"], ["redo-ifchange x", "redo-ifchange y"], setup=pre, visible=VIS), 1 if q else 2))
     L.append((SC.scn("db-build+ood+targets", w["two"], ["redo-ifchange x", "redo-ood", "redo-targets"], setup=pre, visible=VIS), 1 if q else 2))
+    # a query that has to write (redo-ood forgetting a target whose file was removed) against a build
+    L.append((SC.scn("db-removed-target-ood+build", w["two"], ["redo-ood", "redo-ifchange y"],
+                     setup=[["ifchange", ["x", "y"]], ["rm", "x"], ["edit", "s", "1"]], visible=VIS), 1 if q else 2))
     # (c) builds that share a dependency / the same target
     L.append((SC.scn("db-shared-dep", w["shared"], ["redo-ifchange t1", "redo-ifchange t2"],
                      setup=[["ifchange", ["t1", "t2"]], ["edit", "s", "1"]], visible=VIS), 1 if q else 2))
